@@ -132,6 +132,11 @@ class C09(Check):
             troots = {uni.root_of[k] for k in targets}
             scn["reads"].append(W.rf_op(rng, uni, targets, [x for x in range(nroots) if x not in troots]))
         rng.shuffle(scn["reads"])
+        if rng.random() < 0.4:
+            # callers reuse their argument lists: every read of this run receives the same lookup list object (all roots)
+            for op in scn["reads"]:
+                op["lookups"] = [{"p": r0["dir"]} for r0 in ws["roots"]]
+                op["share_lookups"] = "all-roots"
         return scn
 
     def execute(self, scn: dict) -> Outcome:
@@ -168,6 +173,7 @@ class C09(Check):
             def extra_lookups(op):
                 if dup_dirs:
                     op = dict(op)
+                    op.pop("share_lookups", None)
                     lk = op.get("lookups") or []
                     lk = [lk] if isinstance(lk, dict) else list(lk)
                     op["lookups"] = lk + [{"p": d, "st": "abs", "ty": "p"} for d in dup_dirs]
@@ -243,6 +249,8 @@ class C09(Check):
                     walk(t, "<top>")
                 if m.bad:
                     out.fail("C09.target", "read %d: %s" % (i, "; ".join(m.bad[:3])))
+            for mm in w.mutated_shared_args():
+                out.fail("C09.target", "a list passed as lookup_directories to several calls was modified by the calls (later resolutions depend on earlier calls): " + mm, "argument-mutated")
             out.stats["open_order_signatures"] += len(sigs)
             out.nontrivial = edges >= 2 and len(sigs) >= 2
             out.shape = digest([min(edges, 8) // 2, maxdepth, sorted(o["op"] for o in scn["reads"]), df["kind"] if df else None, min(len(sigs), 4)])
